@@ -144,7 +144,7 @@ package memmetrics
 //@   ensures rejects_bad_config: (buckets <= 0 || resolution < 1000000000) ==> result1 != nil
 //@   ensures accepts_good_config: buckets >= 1 && resolution >= 1000000000 && len(options) == 0 ==> result1 == nil
 //@   loop 1 invariant len(options) == 0 ==> rc != nil && fresh(rc) && rc.resolution == resolution && len(rc.values) == buckets && rc.lastUpdated == zerotime && (forall j int :: 0 <= j && j < buckets ==> rc.values[j] == 0)
-//@   ensures empty_counter: result1 == nil && len(options) == 0 ==> result0 != nil && fresh(result0) && result0.resolution == resolution && len(result0.values) == buckets && result0.lastUpdated == zerotime && (forall j int :: 0 <= j && j < buckets ==> result0.values[j] == 0)
+//@   ensures empty_counter: result1 == nil && len(options) == 0 ==> result0 != nil && fresh(result0) && result0.resolution == resolution && len(result0.values) == buckets && result0.lastUpdated == zerotime && (forall j int :: 0 <= j && j < buckets ==> result0.values[j] == 0) && fresh(backing(result0.values))
 
 //@ func (*RollingCounter).Reset
 //@   props C17
@@ -383,3 +383,35 @@ package memmetrics
 //@   ensures fresh_sets: result0 != nil && result1 != nil && fresh(result0)
 //@   ensures partition: forall j int :: 0 <= j && j < len(values) ==> (in(values[j], result0) <==> !in(values[j], result1))
 //@   ensures members_map_to_true: (forall v real :: in(v, result0) ==> result0[v]) && (forall v real :: in(v, result1) ==> result1[v])
+
+// ---- construction of the ratio counter and of the round-trip metrics ----------------------------------------------------------
+//@ functype memmetrics.RatioOption
+//@   params r
+//@   modifies nothing
+//@ func NewRatioCounter
+//@   props C10 C17
+//@   modifies external
+//@   ensures two_separate_counters: result1 == nil && len(options) == 0 ==> result0 != nil && fresh(result0) && result0.a != nil && result0.b != nil && result0.a != result0.b && fresh(result0.a) && fresh(result0.b) && backing(result0.a.values) != backing(result0.b.values) && result0.a.resolution == resolution && result0.b.resolution == resolution && len(result0.a.values) == buckets && len(result0.b.values) == buckets
+//@   ensures rejects_bad_config: (buckets <= 0 || resolution < 1000000000) ==> result1 != nil
+//@   loop 1 invariant rc != nil && fresh(rc)
+
+// The builders are configuration (RTCounter / RTHistogram options): assumed to hand over new, separate, well-formed objects,
+// as the default ones (proved below) do.
+//@ functype memmetrics.RTOption
+//@   params r
+//@   modifies r.newCounter, r.newHist
+//@ functype memmetrics.NewCounterFn
+//@   modifies nothing
+//@   ensures new_counter: result1 == nil ==> result0 != nil && fresh(result0) && fresh(backing(result0.values)) && len(result0.values) >= 1 && result0.resolution >= 1000000000
+//@ functype memmetrics.NewRollingHistogramFn
+//@   modifies nothing
+//@   ensures new_histogram: result1 == nil ==> result0 != nil && fresh(result0) && rollingOK(result0)
+//@ func NewRTMetrics$1
+//@   props C18
+//@   modifies nothing
+//@   ensures new_counter: result1 == nil ==> result0 != nil && fresh(result0) && fresh(backing(result0.values)) && len(result0.values) >= 1 && result0.resolution >= 1000000000
+//@ func NewRTMetrics
+//@   props C09 C18
+//@   modifies nothing
+//@   ensures separate_parts: result1 == nil ==> result0 != nil && fresh(result0) && result0.total != nil && result0.netErrors != nil && result0.total != result0.netErrors && backing(result0.total.values) != backing(result0.netErrors.values) && result0.histogram != nil && rollingOK(result0.histogram) && result0.statusCodes != nil && len(result0.statusCodes) == 0 && result0.newCounter != nil && result0.newHist != nil
+//@   loop 1 invariant m != nil && fresh(m) && m.statusCodes != nil && fresh(m.statusCodes) && len(m.statusCodes) == 0
